@@ -41,6 +41,7 @@ func runC17(c *Ctx) {
 	c17Shared(c)
 	c17Gating(c)
 	c17ScrapeErrorMetric(c)
+	c17LabelUniqueness(c)
 }
 
 func c17Options(c *Ctx) {
@@ -879,4 +880,95 @@ func c17ScrapeErrorMetric(c *Ctx) {
 			"the name of a metric registered with ConstGauge in NewMetrics", "metricslite panics on a ScrapeError for a non-const metric: a failing scrape crashes the daemon")
 	}
 	c.R.Check(n >= 2 && len(consts) >= 5, "R-C17-6", fn+":scrape-error-sites", fn, c.pos(cs.Pos()), fmt.Sprintf("%d error return(s) with a ScrapeError, %d const gauge(s)", n, len(consts)), ">= 2 returns, >= 5 gauges", "anchor-missing")
+}
+
+// c17LabelUniqueness (R-C17-7): the Prometheus registry rejects two samples of
+// one series with equal label values ("was collected before with the same
+// name and label values"), and the whole scrape then fails with HTTP 500. The
+// per-option series are labelled (interface, key of the option): the key must
+// be unique among the options an accepted configuration can put into one RA.
+// Decided structurally as a necessary condition per option kind:
+//   - the parser rejects two stanzas of the kind with the same key (a pairwise
+//     check over the kind's plugin list exists), and
+//   - a wildcard stanza cannot expand to a key that a static stanza of the same
+//     interface also has (the pairwise check does not exempt the wildcard, or
+//     the kind has no wildcard that changes the key).
+func c17LabelUniqueness(c *Ctx) {
+	pp := c.P.Func("internal/config", "parsePlugins")
+	if pp == nil {
+		return
+	}
+	rej := rejections(c, pp)
+	// a rejection whose deciding condition relates two plugins of the given type
+	pairwise := func(typ string) (found, exemptsWildcard bool) {
+		for _, r := range rej {
+			two := false
+			for _, a := range r.atoms {
+				x, y, _, ok := effCmp(a)
+				if ok && x.Typ != nil && y.Typ != nil && strings.HasSuffix(typeStr(x.Typ), "*plugin."+typ) && strings.HasSuffix(typeStr(y.Typ), "*plugin."+typ) {
+					two = true
+				}
+			}
+			if !two {
+				continue
+			}
+			found = true
+			for _, a := range r.atoms {
+				if a.Cond.Contains(func(e *an.Expr) bool {
+					return e.Op == an.OpGlobal && (e.Name == "config.autoRoute" || e.Name == "config.autoPrefix")
+				}) || a.Cond.Contains(func(e *an.Expr) bool { return e.IsField("Auto") }) {
+					exemptsWildcard = true
+				}
+			}
+		}
+		return
+	}
+	// does collectMetrics guard the emission of a kind's samples by a "label already seen" test?
+	emitsOncePerLabel := map[string]bool{}
+	if cm := c.P.Func("internal/corerad", "collectMetrics"); cm != nil {
+		for _, p := range c.pathsO("R-C17-7", cm, an.PathOpts{EmitCut: true}) {
+			name := metricOfPath(p)
+			seenGuard := false
+			for _, a := range p.Atoms {
+				if filterKind(a) == "Seen" && !a.Pos {
+					seenGuard = true
+				}
+			}
+			if !seenGuard {
+				continue
+			}
+			for _, kind := range []string{"prefix", "route", "rdnss", "dnssl"} {
+				if strings.Contains(name, "_"+kind+"_") {
+					emitsOncePerLabel[kind] = true
+				}
+			}
+		}
+	}
+	for _, k := range []struct {
+		kind, typ, series  string
+		wildcardChangesKey bool
+	}{
+		{"prefix", "Prefix", "corerad_advertiser_prefix_*", true},
+		{"route", "Route", "corerad_advertiser_route_lifetime_seconds", true},
+		{"rdnss", "RDNSS", "corerad_advertiser_rdnss_lifetime_seconds", false},
+		{"dnssl", "DNSSL", "corerad_advertiser_dnssl_lifetime_seconds", false},
+	} {
+		found, exempt := pairwise(k.typ)
+		dedup := emitsOncePerLabel[k.kind]
+		okUnique := found || dedup
+		why := fmt.Sprintf("pairwise check over the %s stanzas: %v; samples de-duplicated by label before emission: %v", k.kind, found, dedup)
+		if !found && !dedup {
+			why = "no pairwise check over the " + k.kind + " stanzas of an interface (two stanzas with the same key are accepted) and collectMetrics emits one sample per option without de-duplicating labels"
+		}
+		if k.wildcardChangesKey && !dedup {
+			// the wildcard expands at run time to keys the parser cannot see; a static stanza with the same key collides
+			okUnique = false
+			if found {
+				why = fmt.Sprintf("the %s wildcard expands at run time to keys that a static %s stanza of the same interface may also have (the parser's pairwise check exempts the wildcard: %v), and collectMetrics emits one sample per option without de-duplicating labels", k.kind, k.kind, exempt)
+			}
+		}
+		c.R.Check(okUnique, "R-C17-7", "corerad.collectMetrics:series-labels-unique:"+k.kind, "corerad.collectMetrics", c.pos(pp.Pos()), why,
+			"label values identify one option: no accepted configuration produces two "+k.kind+" options with the same labels in one RA",
+			"a duplicate sample makes every /metrics scrape of the interface fail with HTTP 500 ("+k.series+")")
+	}
 }
